@@ -165,12 +165,14 @@ def run_solve(case):
             field[1].values = zoo.offarr(seed, 1201, field[1].values.shape)
         N = int(sum(field.fieldsizes))
         B = zoo.offarr(seed, 1210, (N, N))
-        K = B @ B.T + N * np.eye(N)
-        K[0, 5] = K[5, 0] = 0.0
-        Ks = csr_matrix(K)
+        Kspd = B @ B.T + N * np.eye(N)
+        Kspd[0, 5] = Kspd[5, 0] = 0.0
         r = zoo.offarr(seed, 1220, (N,)) * 3
         u = fem.math.values(field)
-        for size in (0, 1, 2, 3):
+        # (a symmetric positive definite matrix and a non-symmetric one: follower loads, tangents without major symmetry)
+        for klab, K in (("", Kspd), ("nonsym/", Kspd + 2.0 * zoo.offarr(seed, 1211, (N, N)))):
+          Ks = csr_matrix(K)
+          for size in (0, 1, 2, 3):
             for d0 in itertools.combinations(range(N), size):
                 dof0 = np.array(d0, dtype=int)
                 dof1 = np.array(sorted(set(range(N)) - set(d0)), dtype=int)
@@ -200,7 +202,7 @@ def run_solve(case):
                     c.traces += 1
                     c.states += 1
                     du = np.asarray(du).ravel()
-                    sub = f"{cont}/dof0={list(d0)}/ext0={elab}"
+                    sub = f"{cont}/{klab}dof0={list(d0)}/ext0={elab}"
                     if size and not np.array_equal(du[dof0], target - uu[dof0]):
                         c.bad(sub + "/prescribed", "prescribed increments must be ext0 - u0 (exactly)", (du[dof0]).tolist(), (target - uu[dof0]).tolist())
                     res1 = K[np.ix_(dof1, dof1)] @ du[dof1] + r[dof1] + (K[np.ix_(dof1, dof0)] @ (target - uu[dof0]) if size else 0)
